@@ -743,6 +743,37 @@ impl Pred {
     /// without regard to NULL semantics. Pattern: two equality/IN leaves on one column, at least one
     /// of them negated (in NNF).
     pub fn has_mergeable_inlists_same_column(&self) -> bool {
+        !self.mergeable_inlist_columns(true).is_empty()
+    }
+
+    /// Columns with two equality / IN leaves (in NNF); `require_negated`: at least one of them negated.
+    pub fn mergeable_inlist_columns(&self, require_negated: bool) -> Vec<usize> {
+        fn collect(p: &Pred, out: &mut Vec<(usize, bool)>) {
+            match p {
+                Pred::Cmp { col, op: CmpOp::Eq, .. } => out.push((*col, false)),
+                Pred::Cmp { col, op: CmpOp::Ne, .. } => out.push((*col, true)),
+                Pred::In { col, neg, .. } => out.push((*col, *neg)),
+                Pred::And(a, b) | Pred::Or(a, b) => {
+                    collect(a, out);
+                    collect(b, out);
+                }
+                Pred::Not(p) | Pred::Is(p, _) => collect(p, out),
+                _ => {}
+            }
+        }
+        let mut v = vec![];
+        collect(&self.nnf(true), &mut v);
+        let mut cols = vec![];
+        for (i, (c, n)) in v.iter().enumerate() {
+            if v[i + 1..].iter().any(|(c2, n2)| c == c2 && (!require_negated || *n || *n2)) && !cols.contains(c) {
+                cols.push(*c);
+            }
+        }
+        cols
+    }
+
+    #[allow(dead_code)]
+    fn has_mergeable_inlists_same_column_old(&self) -> bool {
         fn collect(p: &Pred, out: &mut Vec<(usize, bool)>) {
             match p {
                 Pred::Cmp { col, op: CmpOp::Eq, .. } => out.push((*col, false)),
